@@ -955,9 +955,11 @@ class DBusObjectHandler :
                         need_introspection = True
 
             if not need_introspection:
-                return defer.succeed(
-                    RemoteDBusObject(self, busName, objectPath, ifl)
-                )
+                prox = RemoteDBusObject(self, busName, objectPath, ifl)
+                # registered like an introspected proxy, so that its
+                # disconnect callbacks run when the connection is lost
+                self._weakProxies[id(prox)] = prox
+                return defer.succeed(prox)
 
         d = self.conn.introspectRemoteObject(
             busName,
